@@ -673,6 +673,82 @@ func c04CancelShapes() []*profile.Profile {
 	return out
 }
 
+// c04TagFamily: one stack work <- main, samples that differ only in their labels under the keys the
+// tag options name.
+func c04TagFamily() *profile.Profile {
+	p := &profile.Profile{SampleType: []*profile.ValueType{{Type: "samples", Unit: "count"}, {Type: "cpu", Unit: "count"}}}
+	m := &profile.Mapping{ID: 1, Start: 0x1000, Limit: 0x9000, File: "bin/prog", HasFunctions: true}
+	p.Mapping = []*profile.Mapping{m}
+	fm := &profile.Function{ID: 1, Name: "main", SystemName: "main", Filename: "main.go"}
+	fw := &profile.Function{ID: 2, Name: "work", SystemName: "work", Filename: "work.go"}
+	p.Function = []*profile.Function{fm, fw}
+	lm := &profile.Location{ID: 1, Mapping: m, Address: 0x1010, Line: []profile.Line{{Function: fm, Line: 10}}}
+	lw := &profile.Location{ID: 2, Mapping: m, Address: 0x1020, Line: []profile.Line{{Function: fw, Line: 20}}}
+	p.Location = []*profile.Location{lm, lw}
+	add := func(v int64, lab map[string][]string, num map[string][]int64, unit map[string][]string) {
+		p.Sample = append(p.Sample, &profile.Sample{Value: []int64{1, v}, Location: []*profile.Location{lw, lm}, Label: lab, NumLabel: num, NumUnit: unit})
+	}
+	add(7, map[string][]string{"req": {"a"}}, map[string][]int64{"req": {10}}, nil)          // string AND numeric under one key
+	add(3, map[string][]string{"req": {"a"}}, map[string][]int64{"req": {20}}, nil)          // same string, other number
+	add(2, map[string][]string{"req": {"a"}}, nil, nil)                                      // string only
+	add(5, nil, map[string][]int64{"req": {10}}, nil)                                        // numeric only
+	add(1, map[string][]string{"other": {"z"}}, nil, nil)                                    // key absent: empty frame name
+	add(4, map[string][]string{"req": {"a", "b"}}, map[string][]int64{"req": {0, -3}}, map[string][]string{"req": {"bytes", "bytes"}}) // multi-valued, units, zero, negative
+	add(6, map[string][]string{"other": {"z"}}, map[string][]int64{"req": {2048}, "sz": {1 << 40}}, map[string][]string{"req": {"bytes"}, "sz": {"bytes"}})
+	add(8, map[string][]string{"sz": {"big"}}, map[string][]int64{"sz": {-1, 1 << 40}}, nil) // huge and negative, no units
+	add(-9, map[string][]string{"req": {"a"}}, map[string][]int64{"req": {10}}, nil)         // a negative value on the first frame again
+	return p
+}
+
+// c04RareShapes: valid profiles of unusual shape.
+func c04RareShapes() []*profile.Profile {
+	var out []*profile.Profile
+	st := func() []*profile.ValueType {
+		return []*profile.ValueType{{Type: "samples", Unit: "count"}, {Type: "cpu", Unit: "count"}}
+	}
+	m := &profile.Mapping{ID: 7, Start: 0x1000, Limit: 0x9000, File: "bin/prog", HasFunctions: true}
+	fn := func(id uint64, name, file string) *profile.Function {
+		return &profile.Function{ID: id, Name: name, SystemName: name, Filename: file, StartLine: int64(id % 5)}
+	}
+	// (a) no samples at all; (b) only all-zero samples
+	fa := fn(1, "main", "main.go")
+	la := &profile.Location{ID: 1, Mapping: m, Address: 0x1010, Line: []profile.Line{{Function: fa, Line: 3}}}
+	out = append(out, &profile.Profile{SampleType: st(), Mapping: []*profile.Mapping{m}, Function: []*profile.Function{fa}, Location: []*profile.Location{la}})
+	out = append(out, &profile.Profile{SampleType: st(), Mapping: []*profile.Mapping{m}, Function: []*profile.Function{fa}, Location: []*profile.Location{la},
+		Sample: []*profile.Sample{{Value: []int64{0, 0}, Location: []*profile.Location{la}}, {Value: []int64{0, 0}, Location: []*profile.Location{la, la}}}})
+	// (c) functions without a name, with and without a file; locations without mapping / without lines;
+	// id gaps and huge ids; the mapping-less location FOLLOWS a mapped one and vice versa
+	f0 := fn(1<<40, "", "anon.go")
+	f1 := fn(3, "", "")
+	f2 := fn(1<<63+9, "named", "")
+	f3 := fn(1000003, "main", "main.go")
+	mm := &profile.Mapping{ID: 1 << 33, Start: 0x400000, Limit: 0x500000, File: "lib/libx.so", HasFunctions: true}
+	l0 := &profile.Location{ID: 5, Mapping: mm, Address: 0x400100, Line: []profile.Line{{Function: f0, Line: 1}}}
+	l1 := &profile.Location{ID: 1 << 62, Address: 0x77, Line: []profile.Line{{Function: f1, Line: 2}}}
+	l2 := &profile.Location{ID: 9, Mapping: mm, Address: 0x400200, Line: []profile.Line{{Function: f2, Line: 0}, {Function: f1, Line: 4}}}
+	l3 := &profile.Location{ID: 10, Address: 0x88}
+	l4 := &profile.Location{ID: 1<<63 + 1, Mapping: mm, Address: 0x400300}
+	l5 := &profile.Location{ID: 12, Address: 0, Line: []profile.Line{{Function: f3, Line: 7}}}
+	pc := &profile.Profile{SampleType: st(), Mapping: []*profile.Mapping{mm}, Function: []*profile.Function{f0, f1, f2, f3},
+		Location: []*profile.Location{l0, l1, l2, l3, l4, l5}}
+	addc := func(v int64, ls ...*profile.Location) {
+		pc.Sample = append(pc.Sample, &profile.Sample{Value: []int64{1, v}, Location: ls})
+	}
+	addc(5, l0, l5)
+	addc(3, l1, l0, l5)
+	addc(2, l3, l4, l5)
+	addc(7, l4, l3, l2, l5)
+	addc(1, l2, l1, l5)
+	addc(4, l3)
+	addc(-6, l1, l5)
+	out = append(out, pc)
+	// (d) one location at every depth of every stack
+	pd := &profile.Profile{SampleType: st(), Mapping: []*profile.Mapping{m}, Function: []*profile.Function{fa}, Location: []*profile.Location{la},
+		Sample: []*profile.Sample{{Value: []int64{1, 5}, Location: []*profile.Location{la, la, la}}, {Value: []int64{1, 2}, Location: []*profile.Location{la}}}}
+	out = append(out, pd)
+	return out
+}
+
 func c04RandomOpts(r *Rng, p *profile.Profile, format string) c04Opts {
 	o := c04Opts{Format: format}
 	o.Gran = PickS(r, c04Grans)
@@ -767,6 +843,43 @@ func runC04(c *Ctx) {
 		for _, f := range []struct{ form, format string }{{"graph", "text"}, {"top", "text"}, {"tree", "tree"}, {"traces", "traces"}} {
 			for _, ks := range [][2]string{{"key,k", ""}, {"", "key,k"}, {"key,k", "k,key"}} {
 				emit("tag-order", p7, c04Opts{Format: f.format, TagRoot: ks[0], TagLeaf: ks[1], SampleIndex: "1"}, f.form)
+			}
+		}
+	}
+	// label pseudo frames (formatLabelValues / addLabelNodes): a key carrying BOTH string and numeric
+	// values on one sample, numeric-only and string-only samples, multi-valued labels, units, zero /
+	// negative / huge numeric values, samples without the key (empty frame name), repeated and
+	// unknown keys, the same key as root and leaf (deterministic)
+	{
+		pt := c04TagFamily().Copy()
+		tagForms := []struct{ form, format string }{{"graph", "text"}, {"top", "text"}, {"tree", "tree"}, {"traces", "traces"}, {"dot", "dot"}, {"callgrind", "callgrind"}}
+		keysets := [][2]string{{"req", ""}, {"", "req"}, {"req", "req"}, {"sz", "req"}, {"req,sz", ""}, {"", "sz,req"}, {"req,req", ""},
+			{",req,", "nosuch"}, {"other,req", "sz"}, {"nosuch", ""}}
+		for ki, ks := range keysets {
+			for fi, f := range tagForms {
+				if c.Tier != "thorough" && ki >= 3 && (ki+fi)%3 != 0 {
+					continue // the first three key sets go through every form, the others through a third
+				}
+				o := c04Opts{Format: f.format, TagRoot: ks[0], TagLeaf: ks[1], Gran: []string{"", "lines", "files", "functions"}[(ki+fi)%4]}
+				if (ki+fi)%5 == 1 && f.form != "graph" {
+					o.Via = "session"
+				}
+				o.CallTree = (ki+fi)%4 == 2
+				emit("tag-family", pt, o, f.form)
+			}
+		}
+	}
+	// rare but valid profile shapes: no samples at all, only all-zero samples, functions without a
+	// name (with and without a file), locations without mapping and without lines, id gaps and huge
+	// ids, one location used at every depth (deterministic)
+	for _, p := range c04RareShapes() {
+		p = p.Copy()
+		for gi, gr := range c04Grans {
+			for fi, f := range forms {
+				if c.Tier != "thorough" && (gi+fi)%3 != 0 {
+					continue
+				}
+				emit("rare-shape", p, c04Opts{Format: f.format, Gran: gr, CallTree: (gi+fi)%2 == 0, NoInlines: gi%2 == 1}, f.form)
 			}
 		}
 	}
